@@ -53,6 +53,80 @@ fn allowed(writes: &[W], key: &[u8]) -> Vec<Option<Vec<u8>>> {
     out
 }
 
+/// Operations of one concurrent writer (its keys are disjoint from every other client's, so the
+/// per-key write order is its own program order after the main client's earlier writes).
+fn client_ops(db: Arc<DB>, plan: Arc<crate::plan::Plan>, client: usize, earlier: Vec<W>, out: Shared, label: String) -> Vec<W> {
+    let nkeys = plan.keys.len();
+    let mut mine: Vec<W> = vec![];
+    for (idx, op) in plan.clients[client].iter().enumerate() {
+        if rt::is_poisoned() {
+            break;
+        }
+        rt::sched_point(rt::YieldKind::Client);
+        with_out(&out, |o| o.stats.ops += 1);
+        let mut items: Items = vec![];
+        match op {
+            Op::Put { k, v } => items.push((plan.keys[*k % nkeys].clone(), Some(v.bytes()))),
+            Op::Delete { k } => items.push((plan.keys[*k % nkeys].clone(), None)),
+            Op::Batch { items: its } => {
+                for (k, v) in its {
+                    items.push((plan.keys[*k % nkeys].clone(), v.as_ref().map(|v| v.bytes())));
+                }
+            }
+            _ => {}
+        }
+        if !items.is_empty() {
+            let mut b = Batch::new();
+            for (k, v) in &items {
+                match v {
+                    Some(v) => {
+                        b.add_put(k.clone(), v.clone());
+                    }
+                    None => {
+                        b.add_delete(k.clone());
+                    }
+                }
+            }
+            with_out(&out, |o| o.stats.writes += 1);
+            match call("apply", || db.apply(WriteOptions::default(), b)) {
+                Called::Ok(Ok(())) => mine.push(W { items, ok: true, idx: 10_000 * (client + 1) + idx }),
+                Called::Ok(Err(_)) => {
+                    with_out(&out, |o| o.stats.bump("writes_returning_err", 1));
+                    mine.push(W { items, ok: false, idx: 10_000 * (client + 1) + idx })
+                }
+                Called::Panicked { message, location } => {
+                    push_finding(&out, Finding::new(&["C08"], "panic-under-fault", "apply", format!("{}: a concurrent write panicked instead of returning an error: {} at {}", label, message, location), Some(idx)));
+                    mine.push(W { items, ok: false, idx: 10_000 * (client + 1) + idx });
+                    break;
+                }
+            }
+            continue;
+        }
+        if let Op::Get { k } = op {
+            let key = &plan.keys[*k % nkeys];
+            with_out(&out, |o| o.stats.gets += 1);
+            match call("get", || get(&db, None, key)) {
+                Called::Ok(Ok(v)) => {
+                    let mut all = earlier.clone();
+                    all.extend(mine.iter().cloned());
+                    let al = allowed(&all, key);
+                    if !al.contains(&v) {
+                        push_finding(&out, Finding::new(&["C08"], "ok-write-not-visible", "concurrent", format!("{}: client {} get({}) returned Ok({}) but its last write that returned Ok set it to {}; allowed {:?}", label, client, show_key(key), show_opt(&v), show_opt(&al[0]), al.iter().map(show_opt).collect::<Vec<_>>()), Some(idx)));
+                        break;
+                    }
+                }
+                Called::Ok(Err(_)) => with_out(&out, |o| o.stats.bump("reads_returning_err", 1)),
+                Called::Panicked { message, location } => {
+                    push_finding(&out, Finding::new(&["C08"], "panic-under-fault", "get", format!("{}: get panicked: {} at {}", label, message, location), Some(idx)));
+                    break;
+                }
+            }
+        }
+    }
+    drop(db);
+    mine
+}
+
 pub fn body(case: &Case, out: &Shared) {
     let plan = &case.plan;
     let nkeys = plan.keys.len();
@@ -198,6 +272,29 @@ pub fn body(case: &Case, out: &Shared) {
             _ => {}
         }
     }
+    // ---- concurrent writers (group commit under faults): disjoint key sets ----
+    if !plan.clients.is_empty() && db.is_some() && !stopped && !rt::is_poisoned() {
+        let shared_db = Arc::new(db.take().unwrap());
+        let plan_arc = Arc::new(plan.clone());
+        let label = fault_label(&fs);
+        let mut hs = vec![];
+        for c in 0..plan.clients.len() {
+            let (d2, p2, o2, l2, earlier) = (Arc::clone(&shared_db), Arc::clone(&plan_arc), Arc::clone(out), label.clone(), writes.clone());
+            let h = rt::thread::Builder::new().name(format!("writer-{}", c)).spawn(move || client_ops(d2, p2, c, earlier, o2, l2)).expect("spawn writer");
+            hs.push(h);
+        }
+        for h in hs {
+            if let Ok(w) = h.join() {
+                writes.extend(w);
+            }
+        }
+        with_out(out, |o| o.stats.probe("concurrent_writers_under_fault"));
+        match Arc::try_unwrap(shared_db) {
+            Ok(d) => db = Some(d),
+            Err(d) => std::mem::forget(d),
+        }
+    }
+
     // ---- the fault is gone: close, reopen on the surviving files, compare ----
     let st = fs.fault_stats();
     with_out(out, |o| {
